@@ -149,6 +149,22 @@ func CheckMain(args []string) int {
 		fmt.Fprintln(os.Stderr, "spec:", err)
 		return 2
 	}
+	// the go command may rewrite go.mod / go.sum when a harness imports a package
+	// the module does not require directly: a check never leaves the tree changed
+	modFiles := map[string][]byte{}
+	for _, f := range []string{"go.mod", "go.sum"} {
+		if b, err := os.ReadFile(filepath.Join(*repo, f)); err == nil {
+			modFiles[f] = b
+		}
+	}
+	defer func() {
+		for f, b := range modFiles {
+			if now, err := os.ReadFile(filepath.Join(*repo, f)); err == nil && !bytes.Equal(now, b) {
+				os.WriteFile(filepath.Join(*repo, f), b, 0o644)
+				fmt.Fprintf(os.Stderr, "note: %s was modified by the go command during the check and has been restored\n", f)
+			}
+		}
+	}()
 	if *replayPath != "" {
 		return replayOnly(*root, *repo, spec, *replayPath)
 	}
